@@ -1123,7 +1123,9 @@ class Exec:
         if is_str_like(cur):
             return self.str(n)
         if cur is None:
-            kind = self._loop_kinds.get(n)
+            # "*none*": what a contract declares for every None-initialised loop variable it does not name (so that renaming such a local does
+            # not make the function undecided when all of them have the same kind)
+            kind = self._loop_kinds.get(n, self._loop_kinds.get("*none*"))
             if kind is None:
                 return HavocNone(n)
             if self.choose([None, None]) == 0:
